@@ -56,7 +56,13 @@ def run(run):
             # oracle: token sequences on both paths
             for name, qtext in (("ci", ru["query"]), ("query-file/scan", ex["query"])):
                 lx = h.call(op="lex", q=qtext)
-                if lx.get("errors") or lx.get("tokens") != want_tokens:
+                got_tokens = lx.get("tokens") or []
+                if not lx.get("errors") and got_tokens != want_tokens and len(got_tokens) == len(want_tokens) and \
+                        all(a == b or (b[0] == "STRING" and ("\n" in b[1] or "\r" in b[1]) and a[0] == "STRING") for a, b in zip(got_tokens, want_tokens)):
+                    # the only tokens that differ are string literals that span lines: the recorded finding
+                    run.violation("C18:newline-in-string-literal", "a string literal that spans lines is changed by the %s reader (line break -> blank)" % name,
+                                  dict(rule_file=text, extracted=qtext, path=name))
+                elif lx.get("errors") or got_tokens != want_tokens:
                     run.violation("C18:token-sequence:" + name, "the query extracted by the %s path is not the token sequence written in the file" % name,
                                   dict(rule_file=text, extracted=qtext, path=name, first_difference=next(((a, b) for a, b in zip(lx.get("tokens", []), want_tokens) if a != b), None)))
             if i < 2:
